@@ -80,18 +80,18 @@ func expectedHookCalls(h *History, st *Step) (want [][3]string, judged bool) {
 	switch o.Kind {
 	case OpCreateFixed:
 		m := st.Raw.Msg(gov).(*types.MsgCreateFixedPriceAuction)
-		args := fmt.Sprintf("%s|%s|%s|%s|%s|%s|%s", m.Auctioneer, m.StartPrice, m.SellingCoin, m.PayingCoinDenom, schedStr(m.VestingSchedules), tfmt(m.StartTime), tfmt(m.EndTime))
+		args := fmt.Sprintf("%s|%s|%s|%s|%s|%s|%s", CanonAddr(m.Auctioneer), m.StartPrice, m.SellingCoin, m.PayingCoinDenom, schedStr(m.VestingSchedules), tfmt(m.StartTime), tfmt(m.EndTime))
 		return [][3]string{{"BeforeFixedPriceAuctionCreated", args, "stored=false"}, {"AfterFixedPriceAuctionCreated", fmt.Sprintf("%d|%s", pre.AuctionSeq, args), "stored=true"}}, true
 	case OpCreateBatch:
 		m := st.Raw.Msg(gov).(*types.MsgCreateBatchAuction)
-		args := fmt.Sprintf("%s|%s|%s|%s|%s|%s|%d|%s|%s|%s", m.Auctioneer, m.StartPrice, m.MinBidPrice, m.SellingCoin, m.PayingCoinDenom, schedStr(m.VestingSchedules), m.MaxExtendedRound, m.ExtendedRoundRate, tfmt(m.StartTime), tfmt(m.EndTime))
+		args := fmt.Sprintf("%s|%s|%s|%s|%s|%s|%d|%s|%s|%s", CanonAddr(m.Auctioneer), m.StartPrice, m.MinBidPrice, m.SellingCoin, m.PayingCoinDenom, schedStr(m.VestingSchedules), m.MaxExtendedRound, m.ExtendedRoundRate, tfmt(m.StartTime), tfmt(m.EndTime))
 		return [][3]string{{"BeforeBatchAuctionCreated", args, "stored=false"}, {"AfterBatchAuctionCreated", fmt.Sprintf("%d|%s", pre.AuctionSeq, args), "stored=true"}}, true
 	case OpCancel:
 		a := pre.Auction(o.Auction)
 		return [][3]string{{"BeforeAuctionCanceled", fmt.Sprintf("%d|%s", o.Auction, o.SignerAddr()), "status=" + a.Status.String()}}, true
 	case OpPlaceBid:
 		m := st.Raw.Msg(gov).(*types.MsgPlaceBid)
-		return [][3]string{{"BeforeBidPlaced", fmt.Sprintf("%d|%d|%s|%d|%s|%s", m.AuctionId, pre.BidSeq[m.AuctionId]+1, m.Bidder, m.BidType, m.Price, m.Coin), "stored=false"}}, true
+		return [][3]string{{"BeforeBidPlaced", fmt.Sprintf("%d|%d|%s|%d|%s|%s", m.AuctionId, pre.BidSeq[m.AuctionId]+1, CanonAddr(m.Bidder), m.BidType, m.Price, m.Coin), "stored=false"}}, true
 	case OpModifyBid:
 		m := st.Raw.Msg(gov).(*types.MsgModifyBid)
 		old := pre.Bid(m.AuctionId, m.BidId)
@@ -99,7 +99,7 @@ func expectedHookCalls(h *History, st *Step) (want [][3]string, judged bool) {
 			return nil, false
 		}
 		oldCoin := sdk.NewCoin(old.Denom, IntFromB(old.Amt))
-		return [][3]string{{"BeforeBidModified", fmt.Sprintf("%d|%d|%s|%d|%s|%s", m.AuctionId, m.BidId, m.Bidder, old.Type, m.Price, m.Coin), fmt.Sprintf("stored=%s|%s", DecFromM(old.PriceM), oldCoin)}}, true
+		return [][3]string{{"BeforeBidModified", fmt.Sprintf("%d|%d|%s|%d|%s|%s", m.AuctionId, m.BidId, CanonAddr(m.Bidder), old.Type, m.Price, m.Coin), fmt.Sprintf("stored=%s|%s", DecFromM(old.PriceM), oldCoin)}}, true
 	case OpAddAllowed, OpMsgAddAllowed:
 		bidder := o.BidderAddr()
 		if o.Kind == OpMsgAddAllowed {
